@@ -316,3 +316,20 @@ Theorem leaf_extra E v op act :
   | _ => Err EAssert
   end.
 Proof. intros He. unfold validate_con. cbn. rewrite He. cbn. destruct op; reflexivity. Qed.
+
+(* names differing in case, in the separator used, or in the length of a separator run share one normal form *)
+Lemma is_sep_lower c : is_sep (lower c) = is_sep c.
+Proof.
+  destruct (is_sep c) eqn:S; [|apply lower_not_sep; exact S].
+  unfold lower. destruct (is_upper c) eqn:U; [|exact S]. exfalso.
+  unfold is_sep, is_upper, code in *. apply andb_true_iff in U. destruct U as [U1 U2]. apply N.leb_le in U1, U2.
+  repeat (apply orb_true_iff in S; destruct S as [S|S]); apply N.eqb_eq in S; lia.
+Qed.
+Theorem canon_case_insensitive : forall l p, canon_chars p (map lower l) = canon_chars p l.
+Proof.
+  induction l as [|c l IH]; intros p; [reflexivity|]. cbn [map canon_chars]. rewrite is_sep_lower.
+  destruct (is_sep c); [destruct p; rewrite IH; reflexivity|]. rewrite lower_lower, IH. reflexivity.
+Qed.
+Theorem canon_separator_runs s1 s2 l p : is_sep s1 = true -> is_sep s2 = true ->
+  canon_chars p (s1 :: s2 :: l) = canon_chars p (s1 :: l) /\ canon_chars p (s1 :: l) = canon_chars p ("-"%char :: l).
+Proof. intros H1 H2. cbn [canon_chars]. rewrite H1, H2, dash_is_sep. destruct p; split; reflexivity. Qed.
